@@ -195,17 +195,18 @@ def instantiate(terms, rounds=3, templates=None):
                     if e1 is e2:
                         continue
                     a2, n2 = e2.args[1], e2.args[2]
-                    if str(a1) != str(a2):
+                    same = str(a1) == str(a2)
+                    if not same and not (len(str(a1)) < 40 and len(str(a2)) < 40 and len(es) <= 6):
                         continue
                     k = ("pre", str(h.of(e1)), str(h.of(e2)))
                     if k in done_other:
                         continue
                     done_other.add(k)
-                    # common start: prefix relation
+                    # common start: prefix relation (starts equal syntactically, or semantically as a guard)
                     mid = Extract(s, Add(a1, n1), Sub(n2, n1))
                     new.append(
                         Implies(
-                            And(Le(I(0), a1), Le(I(0), n1), Le(n1, n2)),
+                            And(Le(I(0), a1), Le(I(0), n1), Le(n1, n2), *([] if same else [Eq(a1, a2)])),
                             Eq(h.of(e2), h.plus(h.of(e1), h.of(mid))),
                         )
                     )
